@@ -9,7 +9,7 @@ from vmc.oracles.scene import Group, Shape, Solid
 from vmc.props import common
 
 KEEP = ("vb_origin", "vb_size", "vb_aspect", "metrics", "width", "user", "tol", "keep", "outline", "stack", "place",
-        "donor_paint", "copy_paint", "seqlen", "nglyphs", "where", "vb_b")
+        "donor_paint", "copy_paint", "seqlen", "nglyphs", "where", "vb_b", "clone")
 DIMS = {k: scenes.DIMS[k] for k in KEEP}
 DIMS["grp"] = ["none"] + [g for g in scenes.DIMS["grp"] if g != "none"]
 DIMS["fmt"] = ["glyf_colr_0", "glyf", "cff_colr_0", "cff2_colr_0"]
